@@ -339,6 +339,12 @@ func ExpectNewErr(s Script) string {
 
 // CheckC15 : divider contract and fail-safe.
 func CheckC15(s Script, tr Trace) error {
+	if tr.Spin {
+		if s.Fault == nil {
+			return nil
+		}
+		return fmt.Errorf("with a divider fault plan the run never finished: %s", firstLine(tr.Deadlock))
+	}
 	if len(tr.DivViolations) > 0 {
 		v := tr.DivViolations[0]
 		return fmt.Errorf("divider call #%d with priorities %v, dividend %d, nil map %v: %s", v.Call, v.Prios, v.Dividend, v.NilMap, v.What)
@@ -383,6 +389,13 @@ func CheckC15(s Script, tr Trace) error {
 
 // CheckC16 (priority part).
 func CheckC16(s Script, tr Trace) error {
+	if tr.Spin {
+		for _, op := range s.Ops {
+			if op.K == "S" || op.K == "K" {
+				return fmt.Errorf("Stop()/cancel never completed: %s", firstLine(tr.Deadlock))
+			}
+		}
+	}
 	if tr.NewErr != "" || !tr.Stopped() {
 		return nil
 	}
